@@ -7,6 +7,9 @@ CONSTANTS
  Paths <- MCPaths
  MaxOps = 5
  WithFF = FALSE
+ MolIdx <- MCMolAll
+ MsgKinds <- MCMsgNone
+ MaxMsgs = 0
  HDev = "readerCaches"
 INVARIANT ReadIsCurrent
 CHECK_DEADLOCK FALSE
